@@ -279,3 +279,132 @@ Proof. unfold lpad. rewrite app_length, repeat_length. lia. Qed.
 Theorem fmt_f_value_close q w p :
   exists z, parse_dec (fmt_f (Fin q) w p) = Some z /\ (Qabs (z - q) <= (1#2) / inject_Z (pow10 p))%Q.
 Proof. exists (shown q p). split; [apply fmt_f_parse_back|apply shown_within_half_ulp]. Qed.
+
+(* ---------- thousands separators: format(x, 'w,.pf') ---------- *)
+(* l' is l with commas inserted *)
+Inductive commaed : list ascii -> list ascii -> Prop :=
+| cm_nil : commaed [] []
+| cm_keep c l l' : commaed l l' -> commaed (c :: l) (c :: l')
+| cm_comma l l' : commaed l l' -> commaed l (","%char :: l').
+
+Lemma commaed_app a a' b b' : commaed a a' -> commaed b b' -> commaed (a ++ b) (a' ++ b').
+Proof. intros H. induction H; intros Hb; simpl; [exact Hb|constructor; auto|constructor; auto]. Qed.
+
+Lemma commaed_rev l l' : commaed l l' -> commaed (rev l) (rev l').
+Proof.
+  intros H. induction H; simpl.
+  - constructor.
+  - apply commaed_app; [exact IHcommaed|repeat constructor].
+  - rewrite <- (app_nil_r (rev l)). apply commaed_app; [exact IHcommaed|repeat constructor].
+Qed.
+
+Lemma commaed_group3_rev l : forall k, commaed l (group3_rev l k).
+Proof.
+  induction l as [|d r IH]; intros k; simpl; [constructor|].
+  destruct k as [|[|[|k]]]; try (constructor; apply IH).
+  destruct r; constructor; [apply IH|constructor; apply IH].
+Qed.
+
+Lemma commaed_group3 l : commaed l (group3 l).
+Proof.
+  unfold group3. rewrite <- (rev_involutive l) at 1. apply commaed_rev, commaed_group3_rev.
+Qed.
+
+Lemma commaed_refl l : commaed l l.
+Proof. induction l; constructor; auto. Qed.
+
+Lemma span_digits_commaed l l' : commaed l l' -> forall ds rest, l = dchars ds -> Forall digit ds ->
+  (match rest with [] => True | x :: _ => is_digit x = false /\ Ascii.eqb x ","%char = false end) ->
+  span_digits true (l' ++ rest) = (ds, rest).
+Proof.
+  intros H. induction H; intros ds rest E F R.
+  - destruct ds; [|discriminate]. simpl. destruct rest as [|x r]; [reflexivity|].
+    cbn [span_digits]. destruct R as [R1 R2]. rewrite R1, R2. reflexivity.
+  - destruct ds as [|d ds]; [discriminate|]. change (dchars (d :: ds)) with (digit_char d :: dchars ds) in E.
+    inversion E; subst. inversion F; subst.
+    destruct (digit_char_facts d H2) as (A & B & _).
+    cbn [app span_digits]. rewrite A, (IHcommaed ds rest eq_refl H3 R), B. reflexivity.
+  - cbn [app span_digits]. change (is_digit ","%char) with false. cbv iota. rewrite Ascii.eqb_refl. simpl andb. cbv iota.
+    apply IHcommaed; assumption.
+Qed.
+
+Lemma commaed_head l l' : commaed l l' -> forall ds, l = dchars ds -> Forall digit ds -> ds <> [] ->
+  exists c r, l' = c :: r /\ Ascii.eqb c sp = false /\ Ascii.eqb c "-"%char = false.
+Proof.
+  intros H. induction H; intros ds E F N.
+  - destruct ds; [congruence|discriminate].
+  - destruct ds as [|d ds]; [discriminate|]. change (dchars (d :: ds)) with (digit_char d :: dchars ds) in E.
+    inversion E; subst. inversion F; subst. destruct (digit_char_facts d H2) as (_ & _ & A & B). exists (digit_char d), l'. auto.
+  - exists ","%char, l'. repeat split; reflexivity.
+Qed.
+
+(* generic: sign, (possibly comma-grouped) integer digits, optional fraction *)
+Lemma parse_body_generic (comma neg : bool) X ip fp (s : Z) (p k : nat) :
+  Forall digit ip -> ip <> [] -> Forall digit fp -> length fp = p ->
+  (forall rest, (match rest with [] => True | x :: _ => is_digit x = false /\ Ascii.eqb x ","%char = false end) ->
+                span_digits comma (X ++ rest) = (ip, rest)) ->
+  (exists c r, X = c :: r /\ Ascii.eqb c sp = false /\ Ascii.eqb c "-"%char = false) ->
+  dval (ip ++ match p with O => [] | S _ => fp end) = s ->
+  parse_dec_chars comma (repeat sp k ++ (if neg then ["-"%char] else []) ++ X
+                         ++ match p with O => [] | S _ => "."%char :: dchars fp end)
+  = Some ((if neg then -(1) else 1) * (inject_Z s / inject_Z (pow10 p)))%Q.
+Proof.
+  intros I2 I3 F3 F1 Span (c0 & r0 & EX & Nsp & Nminus) V1.
+  set (tail := match p with O => [] | S _ => "."%char :: dchars fp end).
+  assert (Etail : span_digits comma (X ++ tail) = (ip, tail)).
+  { apply Span. unfold tail. destruct p; simpl; auto. }
+  assert (Hip : exists d ip', ip = d :: ip') by (destruct ip as [|d ip']; [congruence|eauto]).
+  destruct Hip as (d0 & ip' & Eip).
+  assert (V2 : length (match p with O => @nil Z | S _ => fp end) = p) by (destruct p; [reflexivity|exact F1]).
+  unfold parse_dec_chars. rewrite skip_spaces_repeat.
+  assert (Body : forall sgn : bool,
+    (let '(ipx, s3) := span_digits comma (X ++ tail) in
+     match ipx with
+     | [] => None
+     | _ :: _ =>
+       let '(fpx, s4) := match s3 with
+                         | c :: r => if Ascii.eqb c "."%char then span_digits false r else ([], s3)
+                         | [] => ([], [])
+                         end in
+       match s4 with
+       | [] => Some ((if sgn then -(1) else 1) * (inject_Z (dval (ipx ++ fpx)) / inject_Z (pow10 (length fpx))))%Q
+       | _ :: _ => None
+       end
+     end) = Some ((if sgn then -(1) else 1) * (inject_Z s / inject_Z (pow10 p)))%Q).
+  { intros sgn. rewrite Etail. rewrite Eip at 1.
+    unfold tail. destruct p as [|p'].
+    - simpl. rewrite app_nil_r in V1. rewrite app_nil_r, V1. reflexivity.
+    - rewrite Ascii.eqb_refl.
+      replace (dchars fp) with (dchars fp ++ []) by apply app_nil_r.
+      rewrite (span_digits_dchars false fp [] F3 I). rewrite V1, V2. reflexivity. }
+  destruct neg.
+  - cbn [app]. rewrite skip_spaces_id by reflexivity. simpl Ascii.eqb. cbv iota. exact (Body true).
+  - cbn [app]. fold tail. rewrite EX. cbn [app]. rewrite skip_spaces_id by exact Nsp. cbv iota. rewrite Nminus.
+    change (c0 :: r0 ++ tail) with ((c0 :: r0) ++ tail). rewrite <- EX. exact (Body false).
+Qed.
+
+Lemma fixed_body_comma_parse neg s p k : 0 <= s ->
+  parse_dec_chars true (repeat sp k ++ fixed_body true neg s p)
+  = Some ((if neg then -(1) else 1) * (inject_Z s / inject_Z (pow10 p)))%Q.
+Proof.
+  intros Hs. pose proof (pow10_pos p) as Hp.
+  assert (Hi : 0 <= s / pow10 p) by (apply Z.div_pos; lia).
+  destruct (zdigits_spec _ Hi) as (I1 & I2 & I3).
+  destruct (fixdigs_spec p (s mod pow10 p)) as (F1 & F2 & F3).
+  rewrite Z.mod_mod in F2 by lia.
+  unfold fixed_body. cbv iota.
+  set (ip := zdigits (s / pow10 p)) in *. set (fp := fixdigs p (s mod pow10 p)) in *.
+  pose proof (commaed_group3 (dchars ip)) as CM.
+  apply (parse_body_generic true neg (group3 (dchars ip)) ip fp s p k); auto.
+  - intros rest R. eapply span_digits_commaed; eauto.
+  - eapply commaed_head; eauto.
+  - destruct p as [|p'].
+    + rewrite app_nil_r, I1. unfold pow10. simpl. apply Z.div_1_r.
+    + rewrite dval_app, I1, F1, F2. fold (pow10 (S p')). pose proof (Z.div_mod s (pow10 (S p'))). lia.
+Qed.
+
+Theorem fmt_fc_parse_back q w p : parse_dec_comma (fmt_fc (Fin q) w p) = Some (shown q p).
+Proof.
+  unfold parse_dec_comma, fmt_fc, chars. rewrite list_ascii_of_string_of_list_ascii.
+  unfold fmt_f_chars, lpad, shown. apply fixed_body_comma_parse. apply scaled_abs_nonneg.
+Qed.
